@@ -53,7 +53,7 @@ def run_tlc(job, tier, seed, wd, extra_env=None):
     consts["Tier"] = tier
     cfg = ["SPECIFICATION %s" % job.get("spec", "Spec"), "CONSTANTS"]
     for k, v in consts.items():
-        cfg.append('  %s = %s' % (k, json.dumps(v) if isinstance(v, str) else v))
+        cfg.append('  %s = %s' % (k, v if v in ("TRUE", "FALSE") or not isinstance(v, str) else json.dumps(v)))
     for k, v in job.get("subst", {}).items():
         cfg.append('  %s <- %s' % (k, v))
     inv = job.get("invariants", [])
